@@ -59,6 +59,35 @@ def build_vmain():
     return os.path.join(HARNESS, "target", "release", "vmain")
 
 
+VCFG = os.path.join(HARNESS, "vcfg")
+CONFIGS = [("none", ""), ("none+half", "half"), ("alloc", "alloc"), ("alloc+half", "alloc,half"), ("std", "std"), ("std+half", "std,half")]
+
+
+def build_vcfg(only=None):
+    """Build the feature-matrix probe once per configuration (separate target
+    directories, built concurrently).  RUSTFLAGS is cleared: these binaries are
+    the library exactly as a user of that configuration compiles it (no hooks)."""
+    lock = os.path.join(VCFG, "Cargo.lock")
+    if not os.path.exists(lock):
+        shutil.copy(os.path.join(HARNESS, "Cargo.lock"), lock)
+    procs = []
+    e = dict(ENV)
+    e["RUSTFLAGS"] = ""
+    for name, feats in CONFIGS:
+        if only and name not in only:
+            continue
+        tdir = os.path.join(HARNESS, "target", "cfg-" + name)
+        cmd = ["cargo", "build", "--release", "--offline", "--no-default-features", "--features", feats, "--target-dir", tdir, "-j", "4"]
+        procs.append((name, tdir, subprocess.Popen(cmd, cwd=VCFG, env=e, stdout=subprocess.PIPE, stderr=subprocess.STDOUT, text=True)))
+    bins = {}
+    for name, tdir, p in procs:
+        out, _ = p.communicate()
+        if p.returncode != 0:
+            raise Inconclusive("feature configuration '%s' of the probe does not build against the current tree:\n%s" % (name, "\n".join(out.splitlines()[-30:])))
+        bins[name] = os.path.join(tdir, "release", "vcfg")
+    return bins
+
+
 # --------------------------------------------------------------------------- workers
 
 def run_workers(binary, sub, tier, seed, nshards, outdir, extra=None, timeout=3600, env=None, tag="w"):
@@ -293,6 +322,43 @@ def simple_check(pid, tier, seed, spec):
         if "post" in spec:
             extra = spec["post"](pid, tier, seed, spec, merged, problems, od)
         return finish(pid, tier, seed, spec, merged, problems, dh, time.time() - t0, extra)
+    finally:
+        shutil.rmtree(od, ignore_errors=True)
+
+
+def cfg_check(pid, tier, seed, spec):
+    """C20: online differential monitor over the six separately built configurations."""
+    t0 = time.time()
+    vmain = build_vmain()
+    bins = build_vcfg()
+    od = outdir_for(pid, tier)
+    try:
+        extra = ["--bins", ",".join("%s=%s" % kv for kv in bins.items())]
+        reports, problems = run_workers(vmain, spec["sub"], tier, seed, NCPU, od, extra=extra, timeout=spec.get("timeout", {}).get(tier, 7200))
+        merged = merge_reports(reports)
+        dh = merge_hashes(vmain, [od])
+        ops = {}
+        for name, path in bins.items():
+            p = subprocess.run([path, "ops"], stdout=subprocess.PIPE, text=True)
+            ops[name] = len(p.stdout.split())
+        return finish(pid, tier, seed, spec, merged, problems, dh, time.time() - t0, {"configurations": sorted(bins), "operations_per_configuration": ops})
+    finally:
+        shutil.rmtree(od, ignore_errors=True)
+
+
+def skip_check(pid, tier, seed, spec):
+    """C06: the std build in vmain, then the same oracle against the separately built no-alloc probe."""
+    t0 = time.time()
+    vmain = build_vmain()
+    bins = build_vcfg(only=("none", "none+half", "alloc"))
+    od = outdir_for(pid, tier)
+    try:
+        reports, problems = run_workers(vmain, spec["sub"], tier, seed, NCPU, os.path.join(od, "std"), timeout=3600)
+        extra = ["--bins", ",".join("%s=%s" % kv for kv in bins.items())]
+        r2, p2 = run_workers(vmain, "c06n", tier, seed, NCPU, os.path.join(od, "noalloc"), extra=extra, timeout=3600)
+        merged = merge_reports(reports + r2)
+        dh = merge_hashes(vmain, [os.path.join(od, "std"), os.path.join(od, "noalloc")])
+        return finish(pid, tier, seed, spec, merged, problems + p2, dh, time.time() - t0, {"no_alloc_configurations": sorted(bins)})
     finally:
         shutil.rmtree(od, ignore_errors=True)
 
@@ -554,11 +620,12 @@ CHECKS["C04"] = {
 
 CHECKS["C06"] = {
     "sub": "c06",
+    "runner": skip_check,
     "level": "exploration",
     "technique": "runtime monitoring: skip() position vs reference item-boundary parser, with step and allocation monitors",
     "rule": "all item trees with <= 4 (quick) / 5 (thorough) nodes over {definite, indefinite} x {array, map, string, bytes, tag, scalar}, random trees to depth 8 and adversarial nesting families (indefinite chains to depth 3000/10000, alternating definite/indefinite nesting, tag chains, maps with 2^k entries); each with 4 suffixes and all (or sampled, for long encodings) strict prefixes; distinct = enumerated trees + distinct hashed random encodings",
-    "level_text": "skip() is run on real encodings whose exact item boundary is known from an independent parser; the counting<->stack mode switch is targeted by enumerating all small nestings and by adversarial families; every strict prefix must fail; the step hook and the counting allocator decide the linear-work and linear-memory parts without wall-clock. The no-alloc configuration runs the same source in the C20 feature-matrix binary.",
-    "level_note": "Trusted: refcbor::parse. Text in generated items is valid UTF-8 (skip validates text). The no-alloc half of the property is exercised by the vcfg 'none' build (see C20 evidence: table c06-noalloc).",
+    "level_text": "skip() is run on real encodings whose exact item boundary is known from an independent parser; the counting<->stack mode switch is targeted by enumerating all small nestings and by adversarial families; every strict prefix must fail; the step hook and the counting allocator decide the linear-work and linear-memory parts without wall-clock. The no-alloc half runs against the separately built feature-matrix probe (harness/vcfg, configurations none and none+half, alloc for comparison): skip must stop exactly at the reference item end or return the documented refusal (accepted only when the item really nests an indefinite container in a definite one), and must fail on every strict prefix.",
+    "level_note": "Trusted: refcbor::parse. Text in generated items is valid UTF-8 (skip validates text). Tables noalloc/* and alloc/* in the evidence count what the no-alloc build did.",
     "assumptions": COMMON_ASSUMPTIONS,
 }
 
@@ -701,6 +768,19 @@ CHECKS["C10"] = {
 }
 
 
+CHECKS["C20"] = {
+    "sub": "c20",
+    "runner": cfg_check,
+    "engine": "vmain+vcfg",
+    "level": "exploration",
+    "technique": "runtime monitoring, differential across builds: six separately compiled feature configurations run as servers, an online monitor compares (class, value digest, position, error position) per operation and input and accepts only the documented differences",
+    "rule": "inputs: all byte strings of length <= 2, the structured head sweep (every initial byte x argument width x boundary argument x filler), all item trees with <= 3 (quick) / 4 (thorough) nodes bare and inside a definite array, valid encodings of the derived and serde types defined in the probe and their variations (truncations, wider heads, indefinite containers, unknown fields holding indefinite containers / half floats / indefinite strings, replaced leaves, byte mutants), random trees, shape-directed items, items dense in half floats and nested indefinite containers, random bytes; each input goes to every operation of every configuration (~130 operations without alloc, ~190 with std+half: accessors, iterators, skip, probe, tokens, display, encoder methods, typed decode + re-encode + len of the built-in types, derived types, serde deserialize + serialize incl. deserialize_any, ignored_any, collect_str); distinct = enumerated inputs + distinct hashed generated inputs",
+    "level_text": "The property quantifies over builds, so the workload is the same deterministic corpus run through separately compiled binaries (Cargo feature unification makes this impossible inside one test run); every pair of configurations sharing an operation is compared on every input, and a difference is accepted only if it matches one of the four documented rules, each with a necessary condition checked on the input (refusal text + an indefinite head after a definite one; error positioned at 0xf9; serde type error positioned at 0x5f/0x7f; the collect_str operation). Exploration with a differential oracle is the right level: the input space is unbounded and each configuration is the others' reference.",
+    "level_note": "Trusted: the probe's operation table (harness/vcfg) is the same source in every configuration, gated by the same cfgs as the library. Error texts are never compared (documented to differ); display output is compared up to the inline error marker. The probe is built without the verification cfg. 32-bit targets are not executed.",
+    "assumptions": COMMON_ASSUMPTIONS + ["the probe binaries use std for I/O only; minicbor, minicbor-serde and serde are compiled with exactly the features of the configuration"],
+}
+
+
 def write_manifest():
     ids = [json.loads(l)["id"] for l in open(os.path.join(ROOT, "properties.jsonl"))]
     hooks = json.load(open(os.path.join(ROOT, "MANIFEST.json")))["hooks"]
@@ -727,6 +807,7 @@ def write_manifest():
         "hooks": hooks,
         "engines": [
             {"name": "vmain", "path": "harness/vmain", "serves_properties": [c["property_id"] for c in checks if "vmain" in c["engine"]], "kind_free_text": "Rust worker binary linking /repo's crates (std+half+derive, --cfg minicbor_verif): workload generators, reference models, runtime monitors; orchestrated by run.py"},
+            {"name": "vcfg", "path": "harness/vcfg", "serves_properties": [c["property_id"] for c in checks if "vcfg" in c["engine"]] + ["C06"], "kind_free_text": "feature-matrix probe: one binary per configuration {none, alloc, std} x {half off, on} of minicbor + minicbor-serde (derive on), serving operation outcomes to the differential driver in vmain"},
             {"name": "vgen", "path": "gen_schemas.py + harness/dsupport", "serves_properties": [c["property_id"] for c in checks if "vgen" in c["engine"]], "kind_free_text": "schema generator emitting Rust crates that are compiled with /repo's derive macros; reference semantics over schema descriptions in harness/dsupport"},
         ],
         "checks": checks,
@@ -771,7 +852,9 @@ def do_replay(path):
             binary = build_gen_crate(name, int(gseed), int(ntypes), int(nchains))
             argv = [sub] + argv[1:]
         else:
-            binary = spec.get("replay_binary", build_vmain)()
+            binary = build_vmain()
+            if pid in ("C20", "C06"):
+                build_vcfg()
     except Inconclusive as ex:
         log("INCONCLUSIVE property=%s reason=%s" % (pid, ex))
         return 2
@@ -802,6 +885,7 @@ def main(argv):
     if len(argv) >= 2 and argv[1] == "build":
         try:
             build_vmain()
+            build_vcfg()
             build_gen_crate(*QUICK_GEN)
         except Inconclusive as ex:
             log(str(ex))
